@@ -36,8 +36,8 @@ MUTANTS = [{'expect': ['C13-R5'],
   'tests': 'KILLED'},
  {'expect': ['C01-R2'],
   'files': [('oneliner/pending_nodes.py',
-             'body_or_true = BoolOp(op=Or(), values=[body, Constant(value=1)])',
-             'body_or_true = BoolOp(op=Or(), values=[body, Constant(value=0)])')],
+             'body_or_true = Tuple(elts=[body], ctx=Load())',
+             'body_or_true = body')],
   'id': 'm06',
   'prop': 'C01',
   'tests': 'SURVIVES'},
@@ -397,7 +397,7 @@ MUTANTS += [
     {"id": "n01", "prop": "C01", "expect": ["C01-R1"], "files": [(PN, "        loader_name = ol_name(OL_CLASS_LOADER)", "        loader_name = \"__loader\"")]},
     {"id": "n03", "prop": "C01", "expect": ["C01-R3"], "files": [("oneliner/__init__.py", "    symtable_root = symtable.symtable(code, filename, \"exec\")", "    symtable_root = symtable.symtable(code.strip(), filename, \"exec\")")]},
     {"id": "n04", "prop": "C02", "expect": ["C02-R1"], "files": [("oneliner/reserved_identifiers.py", "\"__ol_mod_{}\"", "\"__ol_mod-{}\"")]},
-    {"id": "n05", "prop": "C02", "expect": ["C02-R2"], "files": [(PN, "    def assign_subscript(self, target: Subscript, value: expr):\n        _slice = utils.convert_index(target.slice)", "    def assign_subscript(self, target: Subscript, value: expr):\n        _slice = target.slice")]},
+    {"id": "n05", "prop": "C02", "expect": ["C02-R2"], "files": [(PN, "        _slice = utils.convert_index(expr_transf(self.nsp, target.slice))", "        _slice = expr_transf(self.nsp, target.slice)")]},
     {"id": "n07", "prop": "C02", "expect": ["C02-R5"], "files": [("oneliner/__init__.py", "        return expr_unparse(out)", "        return expr_unparse(out).strip(\"()\")")]},
     {"id": "n08", "prop": "C03", "expect": ["C03-R1"], "files": [(EU, "        Await: unparse_Await,\n", "")]},
     {"id": "n09", "prop": "C03", "expect": ["C03-R2"], "files": [(EU, "    if node.step is not None:\n        step = yield PREC_EXPR_SLOT, node.step\n", "")]},
